@@ -195,7 +195,7 @@ class Engine:
     def store(self, p, val):
         if p is None:
             raise GoPanic('nil-deref')
-        if type(val) is tuple:
+        if isinstance(val, tuple):
             val = thaw(val)
         obj = p.obj
         path = p.path
@@ -2174,6 +2174,23 @@ def run_inits(self, pkgs=None):
     self.path_instrs = 0
 
 
+def run_setup(self, fname):
+    """run a harness set-up function concretely, once; what it builds persists across paths (like package init)"""
+    self.solver = z3.Solver()
+    self.prefix = []
+    self.pos = 0
+    self.trail = []
+    self.choice_trail = []
+    self.nondets = []
+    self.callstack = []
+    self.path_instrs = 0
+    self.call(self.prog.funcs[fname], [])
+    self.undo = []
+    self.stats.instrs += self.path_instrs
+    self.path_instrs = 0
+
+
+Engine.run_setup = run_setup
 Engine.run_inits = run_inits
 Engine.init_mode = False
 Engine.init_notes = []
